@@ -15,6 +15,10 @@ FAMILY_VARIANTS = {
     "order_rows": ALLV + POLV,
     "conflict_ortho": ALLV + POLV,
     "flags": ALLV + ["B+p3", "M+p3"],
+    "fe_player": ["B", "B+feR", "B+feR2", "B+feP", "M", "M+feR", "M+feP"],
+    "fe_conflict": ["B", "B+feR", "B+feR2", "B+feP", "M", "M+feR", "M+feP"],
+    "fe_guard_shapes": ["B", "B+feP", "M", "M+feP"],
+    "fe_guard_groups": ["B", "B+feP", "M", "M+feP"],
 }
 
 
@@ -130,6 +134,23 @@ PROPS = {
         "rule": "the same plan (events, guard vectors, posts, enqueue/drain, stop/start, throws) executed on back+runtime, back+compile-time, "
                 "backmp11 flat_fold / function_pointer_array / favor_compile_time; normalised traces (false completion-guard re-tries dropped, "
                 "return code reduced to handled/zero, pending totals) compared pairwise with no model in the loop",
+    },
+    "C14": {
+        "jobs": jobs(["fe_player", "fe_conflict"], ["plain", "queue"], 1000, 40000)
+                + jobs(["fe_guard_shapes", "fe_guard_groups"], ["plain"], 1500, 40000)
+                + [job(f, "common", 1500, 50000, variants=["B", "B+feR", "B+feR2", "B+feP"], mode="diff:frontend") for f in ["fe_player", "fe_conflict"]]
+                + [job(f, "common", 1500, 50000, variants=["M", "M+feR", "M+feP"], mode="diff:frontend") for f in ["fe_player", "fe_conflict"]]
+                + [job(f, "plain", 1500, 50000, variants=["B", "B+feP"], mode="diff:frontend") for f in ["fe_guard_shapes", "fe_guard_groups"]]
+                + [job(f, "plain", 1500, 50000, variants=["M", "M+feP"], mode="diff:frontend") for f in ["fe_guard_shapes", "fe_guard_groups"]],
+        "tokenizer": {"quick": 20000, "thorough": 2000000},
+        "nontrivial": ["multi_candidate"],
+        "rule": "one flat machine written as functor rows, basic member-function rows, row2 rows (methods of the source state) and as a "
+                "PlantUML text with seeded formatting noise (1-4 dashes, blanks and tabs, '/ actions' before or after '[guard]', state "
+                "entry/exit/flag/terminate lines sprinkled between the rows, half of the states defined by text lines), on back and backmp11; "
+                "every variant in lockstep with the model and all variants of one back-end compared with each other on the same plans (guard "
+                "leaf evaluation order included, so precedence and short-circuiting of !, &&, || and parentheses are observable); "
+                "non-trivial = a dispatch consulted >= 2 guards.  Tokenizer clause (seeded input generation, not simulation): lines drawn from "
+                "the documented grammar are fed to front::puml::detail::parse_row and the five fields compared",
     },
     "C15": {
         "jobs": jobs(["nest2_mixed", "exit_points", "history_always", "defer_basic", "queue_flat", "queue_nested"], ["fork"], 800, 40000, variants=ALLV),
